@@ -793,7 +793,7 @@ pub fn expand_env(sh: &Shell, tokens: &mut types::Tokens) {
     let mut buff = Vec::new();
 
     for (sep, token) in tokens.iter() {
-        if sep == "`" || sep == "'" {
+        if sep == "`" || sep == "'" || sep == "\\" {
             idx += 1;
             continue;
         }
